@@ -71,18 +71,15 @@ def zeroPoly (rows N : Nat) : Poly := List.replicate rows (List.replicate N 0)
 
 /-- rows `0 … level` updated by `g`, the rows above left as they are; Go panics with an index
     out of range when the polynomial has fewer than `level+1` rows. -/
-def mapRowsLvl (qs : List Nat) (pol : Poly) (g : Nat → Nat → List Nat → List Nat) : Nat → Res Poly
-  := fun j => go qs pol j
-where
-  go : List Nat → Poly → Nat → Res Poly
-  | [], rest, _ => .ok rest
-  | _ :: _, [], _ => .panic
-  | q :: qs, row :: rest, j => do
-      let t ← go qs rest (j + 1)
-      pure (g j q row :: t)
+def mapRowsLvl (g : Nat → List Nat → List Nat) : List Nat → Poly → Res Poly
+  | [], rest => .ok rest
+  | _ :: _, [] => .panic
+  | q :: qs, row :: rest => do
+      let t ← mapRowsLvl g qs rest
+      pure (g q row :: t)
 
 /-- `Ring.MForm(pol, pol)` at the moduli `qs` (rows above are untouched). -/
 def mformPoly (qs : List Nat) (pol : Poly) : Res Poly :=
-  mapRowsLvl qs pol (fun _ q row => row.map fun a => MForm a q (brc q)) 0
+  mapRowsLvl (fun q row => row.map fun a => MForm a q (brc q)) qs pol
 
 end Lattigo.Sampler
